@@ -125,6 +125,9 @@ func verifUF1(name string, a int) int {
 
 func verifTrackWrites(on bool) {}
 
+// verifSymbolic is true only inside the symbolic engine
+func verifSymbolic() bool { return false }
+
 // VerifRunHarness runs one registered harness and reports what happened.
 func VerifRunHarness(name string) (result map[string]interface{}) {
 	result = map[string]interface{}{"harness": name}
